@@ -246,8 +246,12 @@ def _constants(items):
         for a_, v in e[1]: visit(a_); visit(v)
     return cs, eqs
 
-def find_witness(a, b, samples=1200, seed=1):
+def find_witness(a, b, samples=None, seed=1):
     """-> None or dict(valuation=..., a=effects, b=effects, note=...)"""
+    import os
+    if samples is None:
+        samples = 6000 if os.environ.get('VERIF_TIER') == 'thorough' else 1200
+    seed = seed + int(os.environ.get('VERIF_SEED', '0') or 0)
     ra, sa_ = free_atoms(a)
     rb, sb = free_atoms(b)
     regs, syms = ra | rb, sa_ | sb
